@@ -1611,20 +1611,30 @@ def gen_direct_case(rng):
     """a TR card (12 entries) or a surface whose constants are written with shortcuts, edited through the API"""
     if rng.random() < 0.6:
         vals = [rng.choice(["0", "1", "2", "0.5"]) for _ in range(3)] + ["1", "0", "0", "0", "1", "0", "0", "0", "1"]
+        if rng.random() < 0.5:
+            # entries that are jumped over, in the displacement and in the rotation part
+            for _ in range(rng.choice([1, 1, 2, 3])):
+                a = rng.randrange(12)
+                for k in range(a, min(12, a + rng.choice([1, 1, 2, 3]))):
+                    vals[k] = "j"
         toks = []
         i = 0
         while i < len(vals):
             run = 1
             while i + run < len(vals) and vals[i + run] == vals[i]:
                 run += 1
+            if vals[i] == "j":
+                toks.append({"k": "j", "t": (str(run) if run > 1 or rng.random() < 0.3 else "") + cased(rng, "j")})
+                i += run
+                continue
             toks.append({"k": "n", "t": vals[i]})
             if run > 1 and rng.random() < 0.8:
                 toks.append({"k": "r", "t": (str(run - 1) if run > 2 or rng.random() < 0.5 else "") + "r"})
                 i += run
             else:
                 i += 1
-        edits = [[rng.randrange(12), rng.choice([0.0, 1.0, 2.0, 0.25, -1.0])] for _ in range(rng.choice([0, 1, 1, 2]))]
-        return {"card": "tr", "toks": toks, "edits": edits}
+        edits = [[rng.randrange(12), rng.choice([0.0, 1.0, 2.0, 0.25, -1.0])] for _ in range(rng.choice([0, 0, 1, 1, 2]))]
+        return {"card": "tr", "toks": toks, "edits": edits, "star": rng.random() < 0.2}
     # a general quadric: 10 constants
     n = 10
     toks = gen_card_tokens(rng, "vol", n)
@@ -1644,12 +1654,12 @@ def run_direct_case(case):
         want = spec.expand_shortcuts(spec.tokens(text))
     except (TypeError, ValueError):
         return "skip"
-    if not all(isinstance(x, Fraction) for x in want):
+    if not all(isinstance(x, Fraction) or (x == "J" and case["card"] == "tr") for x in want):
         return "skip"
     if case["card"] == "tr":
         if len(want) != 12:
             return "skip"
-        prob = f"title\n1 0 -1\n\n1 so 1\n\nmode n\ntr5 {text}\n\n"
+        prob = f"title\n1 0 -1\n\n1 so 1\n\nmode n\n{'*' if case.get('star') else ''}tr5 {text}\n\n"
     else:
         if len(want) != 10:
             return "skip"
@@ -1663,8 +1673,10 @@ def run_direct_case(case):
         try:
             if case["card"] == "tr":
                 t = pr.transforms[5]
-                cur = [float(x) for x in t.displacement_vector] + [float(x) for x in t.rotation_matrix]
-                k = spec_matches(want, cur, allow_trailing=False)
+                cur = [None if x is None else float(x) for x in t.displacement_vector] + \
+                      [None if x is None else float(x) for x in t.rotation_matrix]
+                k = spec_matches(want, cur, allow_trailing=True)
+                cur += [None] * (12 - len(cur))
                 if k:
                     return {"kind": "misread:" + k, "stage": "read", "values": [str(v) for v in cur]}
                 for i, v in case["edits"]:
@@ -1677,7 +1689,7 @@ def run_direct_case(case):
                         m[i - 3] = v
                         t.rotation_matrix = m
                     cur[i] = v
-                name = "TR5"
+                name = "*TR5" if case.get("star") else "TR5"
             else:
                 s = pr.surfaces[1]
                 cur = [float(x) for x in s.surface_constants]
@@ -1712,7 +1724,7 @@ def run_direct_case(case):
         return {"kind": "invalid-token", "stage": "write", "text": " ".join(toks)}
     if case["card"] == "tr" and len(sv) == 13:
         sv = sv[:12]
-    k = spec_matches(sv, cur, allow_trailing=False)
+    k = spec_matches(sv, cur, allow_trailing=(case["card"] == "tr"))
     if k:
         return {"kind": k, "stage": "write", "text": " ".join(toks), "values": [str(v) for v in cur]}
     return None
